@@ -23,16 +23,16 @@ ASSUMPTIONS = ['vf/ball.py enclosures are correct (validated by python -m vf.bal
                'of 3x-precision values of the tree and of release 1.3.0 on >= 10^4 points per function)',
                'arguments are injected exactly through ctx.make_mpf/make_mpc, results read from ._mpf_/._mpc_',
                'branch conventions = formulas of function_docs.py with log/sqrt continuous from above (no signed zeros)']
-LEVEL_TEXT = ('exploration: ~6.4*10^5 (quick) / ~1.3*10^7 (thorough) function values of the real code, each decided against a rigorous '
+LEVEL_TEXT = ('exploration: ~6.4*10^5 (quick) / ~10^7 (thorough) function values of the real code, each decided against a rigorous '
               'interval enclosure of the exact value; violated only when the whole enclosure is outside the tolerance')
 LEVEL_NOTE = ('trusted base: vf/ball.py; inputs not generated are not covered; functions outside the statement (coth, sech, csch, '
               'sincpi) are observed, not asserted; regime-keyed known findings mask further degradation inside a listed cell up to '
               'its ceiling')
 TECHNIQUE = 'runtime reference-model monitor: rigorous ball-arithmetic oracle on every observed elementary function value'
-SHARD_TIMEOUT = {'quick': 420, 'thorough': 3000}
+SHARD_TIMEOUT = {'quick': 1200, 'thorough': 7200}
 
 N_SHARDS = 16
-CASES = {'quick': 40000, 'thorough': 800000}
+CASES = {'quick': 40000, 'thorough': 600000}
 
 # ---------------------------------------------------------------------------------------
 # the function table (fixed before looking at any result)
@@ -700,6 +700,13 @@ KNOWN_REGIONS = [
               '1024 <= |x| < (p+14)/2.885 and 2940 < p < 3058 tanh returns +-1 and cosh/sinh return exp(|x|)/2 with an error up to '
               '2^(p-2951) ulp',
          witness={'call': 'tanh(-1024)', 'prec': 3000, 'observed': '-1.0', 'exact': '-1 + 2^-2953.6'}),
+    dict(id='root-newton-margin', funcs=['root'], kinds='RC', specials=['0', 'inf'], dists=['far', 'near', 'vnear'],
+         mags={'tiny': 48, 'small': 48, 'unit': 48, 'large': 48, 'huge': 48}, aniso=BOTH,
+         what='nthroot_fixed doubles the precision in every Newton step with a fixed 4-bit margin (also in the first step from the 50-bit '
+              'float estimate) although the error constant of the iteration is (n-1)/2: for n >= 6 and unlucky precisions (2999-3050, '
+              '1500, 750) root(x, n) loses tens of bits',
+         witness={'call': 'root(10, 9)', 'prec': 3050, 'observed_relative_error': '6.3e-895 = 2**79 ulp',
+                  'also': 'root(10,7) at prec 2999: 2**25 ulp'}),
     dict(id='log-quarter-long-mantissa', funcs=['ln', 'log10', 'log:base', 'log1p', 'root', 'power:int', 'power:half', 'power:real',
                                                 'power:complex', 'powm1:int', 'powm1:half', 'powm1:real', 'powm1:complex'],
          kinds='RC', specials=['0'], dists=['far'], mags={'unit': None}, aniso=BOTH,
